@@ -170,7 +170,20 @@ pub fn format_value(kind: Kind, v: Inst, off: i32, pattern: &str) -> Result<Stri
     }
 }
 
+/// field widths and quoted texts up to 2^16 + a few are generated on purpose; nothing larger
+pub fn toks_too_large(toks: &[Tok]) -> bool {
+    toks.len() > 64
+        || toks.iter().any(|t| match t {
+            Tok::Field { width, .. } => *width > 70_000,
+            Tok::Quoted(q) | Tok::Lit(q) => q.len() > 300_000,
+            Tok::Apostrophe => false,
+        })
+}
+
 pub fn case_ok(c: &Case) -> bool {
+    if toks_too_large(&c.toks) {
+        return false;
+    }
     if !(c.v.valid() && c.off.abs() <= 86_399 && c.toks.len() <= 64 && (c.kind != Kind::Date || c.off == 0)) {
         return false;
     }
@@ -364,7 +377,7 @@ impl Prop for LocalOffset {
 
 fn check_local(c: &LocalCase, cx: &mut Cx) -> Verdict {
     use astrolabe::{DateUtilities, TimeUtilities};
-    if c.kind == Kind::Date || !c.v.valid() || c.toks.len() > 64 || !(super::c18::TS_MIN..super::c18::TS_MAX).contains(&c.now) {
+    if c.kind == Kind::Date || !c.v.valid() || toks_too_large(&c.toks) || !(super::c18::TS_MIN..super::c18::TS_MAX).contains(&c.now) {
         return Verdict::Skip("malformed case");
     }
     if c.kind == Kind::DateTime && !(cal::days_from_ymd(1800, 1, 1)..cal::days_from_ymd(2600, 1, 1)).contains(&c.v.day) {
@@ -376,7 +389,7 @@ fn check_local(c: &LocalCase, cx: &mut Cx) -> Verdict {
     };
     let Ok(tzf) = crate::model::tz::read(&bytes) else { return Verdict::Skip("not a well-formed TZif file for the reference reader") };
     let Some(off) = tzf.offset_at(c.now) else { return Verdict::Skip("clock before the first transition of the zone") };
-    if off.abs() > 86_399 {
+    if off.unsigned_abs() > 86_399 {
         return Verdict::Skip("zone offset outside +-23:59:59");
     }
     let pattern = fmt::pattern_of(&c.toks);
